@@ -35,7 +35,7 @@ pub fn de_strategy() -> BoxedStrategy<Req> {
             2 => (value_of(ty), vec(any::<u8>(), 1..8)).prop_map(|(mut v, extra)| { v.extend_from_slice(&extra); v }),
             1 => vec(any::<u8>(), 0..=70),
         ];
-        let shape = if fmt == 1 { prop_oneof![5 => Just(0u8), 1 => 1u8..8].boxed() } else { prop_oneof![4 => Just(0u8), 1 => Just(1u8)].boxed() };
+        let shape = if fmt == 1 { prop_oneof![5 => Just(0u8), 1 => 1u8..8, 1 => 8u8..12].boxed() } else { prop_oneof![4 => Just(0u8), 1 => Just(1u8)].boxed() };
         (content, shape).prop_filter_map("bincode trailing bytes are not asserted", move |(c, sh)| {
             // keep only payloads whose expected outcome is defined (see mops::serde_ops::expected_de)
             if crate::mops::serde_ops::expected_de(ty, fmt, sh, &c).is_some() { Some(Req::new("sd.de", vec![vec![ty], vec![fmt], vec![sh], c])) } else { None }
@@ -65,6 +65,7 @@ pub fn classify(req: &Req, resp: &Resp) -> Vec<&'static str> {
             let len = if ty == 8 { 64 } else { 32 };
             if n < len { l.push("short-input"); } else if n > len { l.push("over-long-input"); }
             if req.a[1][0] == 1 && req.a[2][0] != 0 && req.a[2][0] != 7 { l.push("malformed-json-shape"); }
+            if req.a[1][0] == 1 && req.a[2][0] >= 8 { l.push("valid-prefix-plus-unparsable-trailing-element"); }
             if n == len && *resp == Resp::Rej { l.push("right-length-invalid-encoding-rejected"); }
             if *resp != Resp::Rej { l.push("accepted"); }
         }
@@ -76,8 +77,37 @@ pub fn classify(req: &Req, resp: &Resp) -> Vec<&'static str> {
 
 pub const RULE: &str = "all 11 serialisable types x {bincode, serde_json}: values from the structured generators are serialised (bytes must equal the canonical encoding: 32/64 raw bytes in bincode, 8-byte length + bytes for the serialize_bytes types, the JSON array of those bytes) and deserialised back; Deserialize is fed payloads built from right-length valid / right-length invalid (non-canonical scalar, undecodable Edwards / Ristretto encoding) / short / over-long contents, malformed JSON shapes (element > 255 or negative, string, object, truncated, nested) and raw wire bytes; oracle: success iff the native decoder accepts the same bytes, with the re-encoded value returned; non-trivial = anything but a plain accepted right-length valid value";
 
+/// saved failing inputs of confirmed findings (replayed on every run, bypassing proptest)
+fn regressions() -> Vec<Req> {
+    let key32 = crate::util::unhex("2009082996188d18baa9aaaaaaaaaaaa0a03bee22c0954a48596188df8d941c9");
+    let pk32 = crate::model::ed::Aff::basepoint().compress().to_vec();
+    let mut v = vec![];
+    for (ty, raw) in [(6u8, key32), (7u8, pk32)] {
+        for shape in 8u8..12 {
+            v.push(Req::new("sd.de", vec![vec![ty], vec![1], vec![shape], raw.clone()]));
+        }
+        // the original fuzzer-found form: 33 elements, the last replaced by 256
+        let mut r33 = raw.clone();
+        r33.push(9);
+        r33[0] = 32; // shape 1 replaces element raw[0] % len = 32
+        v.push(Req::new("sd.de", vec![vec![ty], vec![1], vec![1], r33]));
+    }
+    v
+}
+
 pub fn checks(tier: Tier) -> Vec<Check> {
     vec![
+        Check {
+            name: "C16.regressions".into(),
+            strategy: Just(Req::new("none", vec![])).boxed(),
+            cases: 0,
+            exec: Box::new(crate::ops::exec),
+            oracle: Box::new(crate::mops::oracle),
+            classify: Box::new(|_: &Req, _: &Resp| vec!["regression-input-of-a-fixed-finding"]),
+            rule: RULE,
+            exhaustive: false,
+            enumerate: Some(regressions()),
+        },
         Check {
             name: "C16.roundtrip".into(),
             strategy: roundtrip_strategy(),
